@@ -28,6 +28,7 @@ def check(F, rep, tier):
     san.phase_order(F, rep, "R16.3")
     san.integer_sanitiser(F, rep, "R16.4")
     san.predicates_in_closures(F, rep, "R16.5", None, "is_ascii_digit", 1)          # every chars().all/any predicate of the module, whatever the helper is called
+    san.strip_per_segment(F, rep, "R16.5")
     san.zero_strip_result(F, rep, "R16.5")
     san.zero_strip_paths(F, rep, "R16.5")
     san.replace_result_origin(F, rep, "R16.1")
